@@ -1982,7 +1982,18 @@ pub fn corpus(quick: bool) -> Vec<Case> {
 /// One pair case by corruption ids on the given base ("mixed/asc", ...).
 pub fn corpus_pair(base: &str, two_byte: bool, role: Role, id_a: &str, id_b: &str) -> Option<Case> {
     let cfgs = configs();
-    let cfg = find_config(&cfgs, base, two_byte)?;
+    pair_case(find_config(&cfgs, base, two_byte)?, role, id_a, id_b)
+}
+
+/// Batch form of `corpus_pair`: the configurations are built once; one entry per (id_a, id_b).
+pub fn corpus_pairs(base: &str, two_byte: bool, role: Role, ids: &[(String, String)]) -> Vec<Option<Case>> {
+    let cfgs = configs();
+    let cfg = find_config(&cfgs, base, two_byte);
+    ids.iter().map(|(a, b)| cfg.and_then(|c| pair_case(c, role, a, b))).collect()
+}
+
+fn pair_case(cfg: &Config, role: Role, id_a: &str, id_b: &str) -> Option<Case> {
+    let two_byte = cfg.two_byte;
     let a = cfg.menu.iter().find(|m| m.id == id_a)?;
     let b = cfg.menu.iter().find(|m| m.id == id_b)?;
     if a.target == b.target {
